@@ -52,6 +52,13 @@ def plan(seed, subbatch):
         params["input_value"] = pname
         spec = {"cls": cls, "params": params, "common": {}}
         config = {"kind": "chain", "producer": prod, "spec": spec}
+    elif cfg.random() < 0.12:
+        # the pattern / movement wrappers are shipped indicators too
+        from ..catalogue import sample_spec
+        spec = sample_spec(cfg, "Amorph")
+        spec["common"] = {}
+        config = {"kind": "indicator", "spec": spec}
+        cls = "Amorph"
     else:
         cls = cfg.choice(CLASSES)
         params = sample_params(cfg, cls, max_period=4 if small else 20)
@@ -61,6 +68,9 @@ def plan(seed, subbatch):
                 params = sample_params(cfg, cls)
         spec = {"cls": cls, "params": params, "common": {}}
         config = {"kind": "indicator", "spec": spec}
+    spec = config["spec"]
+    if cfg.random() < 0.1 and config["kind"] == "indicator":
+        spec["common"]["name_suffix"] = cfg.choice(("x", "1.5", "v1.2"))   # legal naming option
     fill = False
     if tf:
         spec["common"]["timeframe"] = tf
